@@ -47,7 +47,7 @@ def _same_term(a, b):
     if key in _same_cache:
         return _same_cache[key][2]
     fa, fb = fingerprint(a), fingerprint(b)
-    if fa is not None and fb is not None and fa != fb:
+    if fa is None or fb is None or fa != fb:
         r = False
     else:
         from .ratform import is_identically_zero
@@ -82,7 +82,7 @@ def _log_power_relation(a, r):
 
 
 class Abstraction:
-    def __init__(self, exprs):
+    def __init__(self, exprs, merge=True):
         self.apps, self.has_int = _collect(exprs)
         # applications whose arguments are syntactically equal after polynomial normalisation
         # share one atom (a sound instance of congruence, applied eagerly)
@@ -95,18 +95,23 @@ class Abstraction:
             # arguments with the inner applications already replaced by their (merged) atoms
             aargs = [z3.substitute(a.arg(k), *self.sub) if self.sub else a.arg(k) for k in range(a.num_args())]
             atom = None
-            for (r, rargs, v) in reps.get(name, []):
+            for (r, rargs, v) in (reps.get(name, []) if merge else ()):
                 if len(rargs) == len(aargs) and all(_same_term(x, y) for x, y in zip(rargs, aargs)):
                     atom = v
                     break
-            if atom is None and name == "log":
+            if not merge:
+                for (r, rargs, v) in reps.get(name, []):
+                    if all(x.eq(y) for x, y in zip(rargs, aargs)):
+                        atom = v
+                        break
+            if atom is None and name == "log" and merge:
                 # log(1/u) == -log(u): reuse the atom of a reciprocal argument
                 for (r, rargs, v) in reps.get(name, []):
                     k = _log_power_relation(aargs[0], rargs[0])
                     if k is not None:
                         atom = k * v
                         break
-            if atom is None and name == "log":
+            if atom is None and name == "log" and merge:
                 # log(u) == log(r1) +- log(r2) when u == r1 * r2 or u == r1 / r2 as rational functions
                 lst = reps.get(name, [])
                 fa = fingerprint(aargs[0])
@@ -320,7 +325,7 @@ def solve(constraints, timeout_ms=20000, want_model=True, extra_axioms=(), use_a
     """decide satisfiability of the conjunction.  returns (status, ModelView|None)"""
     t0 = time.time()
     cs = [c for c in constraints]
-    ab = Abstraction(cs + list(extra_axioms))
+    ab = Abstraction(cs + list(extra_axioms), merge=use_axioms)
     abstracted = [ab(c) for c in cs]
     # cheap syntactic exits
     simp = []
